@@ -10,7 +10,9 @@ three-way: harness/C14/g.c (no libusual header) calls glibc with the same argume
         compat/glibc difference is LOGGED and must fall into a class of checks/c14_plat.py (each keyed
         to the exact condition of a documented / POSIX-right / POSIX-unspecified difference, printed
         with its count as coverage.platform_difference_classes); an unexplained difference is
-        reported.  THE JUDGE OF VALUES IS THE LEAN SPEC/MODEL.
+        reported.  For fnmatch collating symbols / equivalence classes and for basename the PLATFORM IS
+        THE ORACLE (known findings K2, K3: only their exact shapes are known, any other difference is a
+        VIOLATION).  Elsewhere THE JUDGE OF VALUES IS THE LEAN SPEC/MODEL.
 """
 import itertools
 import os
@@ -791,6 +793,7 @@ def run(ck):
     examples = {}
     compared = {}
     unclassified = []
+    oracle = {name: {"known": 0, "violations": 0} for name in c14_plat.ORACLE}
     seen_pd = set()
     n = 0
     if os.path.exists(plog):
@@ -807,6 +810,20 @@ def run(ck):
                 continue
             seen_pd.add(key)
             c = classify_plat(f[0], f[1], f[2] if len(f) > 2 else "", f[3] if len(f) > 3 else "")
+            if c in c14_plat.ORACLE:
+                # known findings K2/K3 live here: the platform is the oracle, every difference is reported;
+                # only the exact shapes pinned in known_findings.json print KNOWN-FINDING, the rest VIOLATION
+                rep = c14_plat.oracle_report(c, f[1], f[2] if len(f) > 2 else "", f[3] if len(f) > 3 else "")
+                if vf.match_known(ck._known, PID, rep) is not None:
+                    oracle[c]["known"] += 1
+                    ck.report("obs", rep)
+                else:
+                    oracle[c]["violations"] += 1
+                    if oracle[c]["violations"] <= 3:
+                        ck.report("obs", rep, what="compat %s differs from the platform function (the oracle for "
+                                                   "this family) outside the shape of known finding %s"
+                                                   % (f[0], c14_plat.ORACLE[c][0]))
+                continue
             pd[c] = pd.get(c, 0) + 1
             if c == "UNCLASSIFIED":
                 unclassified.append(f)
@@ -819,6 +836,10 @@ def run(ck):
     ck.cov["platform_difference_classes"] = {
         name: {"count": pd.get(name, 0), "kind": kind, "justification": why}
         for name, (kind, why) in c14_plat.CLASSES.items()}
+    ck.cov["platform_oracle_families"] = {
+        name: {"known_finding": kid, "monitor_class": cls, "differences_matching_the_known_finding": oracle[name]["known"],
+               "other_differences_reported": oracle[name]["violations"], "what": why}
+        for name, (kid, cls, why) in c14_plat.ORACLE.items()}
     ck.cov["platform_difference_classes"]["UNCLASSIFIED"] = {
         "count": len(unclassified), "kind": "reported",
         "justification": "no class explains the difference: reported (kind int), to be looked at"}
@@ -844,4 +865,34 @@ PARTIAL = [
 
 
 def replay(ck, path):
+    import json
+    r = json.load(open(path))
+    if r.get("label") in ("platform-oracle", "unexplained-platform-difference"):
+        # compat against the platform function on the recorded op
+        plog = os.path.join(ck.bdir, "plat-replay.log")
+        if os.path.exists(plog):
+            os.remove(plog)
+        os.environ["C14_PLATLOG"] = plog
+        hcmd, _ = build(ck)
+        ck.run(hcmd, input_text="#case\n" + "\n".join(r["ops"]) + "\n")
+        diffs = [l.rstrip("\n").split("\t") for l in open(plog, errors="replace")
+                 if not l.startswith("#")] if os.path.exists(plog) else []
+        for f in diffs:
+            vf.log("  %s\n      compat  : %s\n      platform: %s" % (f[1][:120], f[2][:120] if len(f) > 2 else "",
+                                                                    f[3][:120] if len(f) > 3 else ""))
+        if not diffs:
+            vf.log("replay: compat and the platform function agree on this input now")
+            return 0
+        known = []
+        for f in diffs:
+            c = classify_plat(f[0], f[1], f[2] if len(f) > 2 else "", f[3] if len(f) > 3 else "")
+            k = vf.match_known(ck._known, PID, c14_plat.oracle_report(c, f[1], f[2], f[3])) \
+                if c in c14_plat.ORACLE and len(f) > 3 else None
+            known.append(k)
+        if all(k is not None for k in known):
+            for k in known:
+                vf.log(f"KNOWN-FINDING: property={ck.pid} {k['what']}")
+            return 0
+        vf.log(f"VIOLATION property={ck.pid} replay={path}")
+        return 1
     return vf.generic_replay(ck, path, *build(ck))
